@@ -1214,9 +1214,23 @@ func (p *constructPlan) Execute(ctx context.Context) (*table.Table, error) {
 	// The buffered channel has capacity to accommodate twice the amount of triples stored in a single call.
 	tripChan := make(chan *triple.Triple, 2*p.bulkSize)
 	done := make(chan bool)
+	// uErrs collects the errors of the bulk updates. It is only read after
+	// the updating goroutine has signaled it is done.
+	var uErrs []string
+	// finish lets the updating goroutine flush what it got so far and waits
+	// for it; it has to be called exactly once on every return path.
+	finish := func() {
+		close(tripChan)
+		<-done
+	}
 
 	go func() {
 		var ts []*triple.Triple
+		bulkUpdate := func(ts []*triple.Triple, updateFunc updater) {
+			if err := update(ctx, ts, p.stm.OutputGraphNames(), p.store, updateFunc); err != nil {
+				uErrs = append(uErrs, err.Error())
+			}
+		}
 		updateFunc := func(g storage.Graph, d []*triple.Triple) error {
 			gID := g.ID(ctx)
 			nTrpls := len(d)
@@ -1242,12 +1256,12 @@ func (p *constructPlan) Execute(ctx context.Context) (*table.Table, error) {
 		for elem := range tripChan {
 			ts = append(ts, elem)
 			if len(ts) >= p.bulkSize {
-				update(ctx, ts, p.stm.OutputGraphNames(), p.store, updateFunc)
+				bulkUpdate(ts, updateFunc)
 				ts = []*triple.Triple{}
 			}
 		}
 		if len(ts) > 0 {
-			update(ctx, ts, p.stm.OutputGraphNames(), p.store, updateFunc)
+			bulkUpdate(ts, updateFunc)
 		}
 		done <- true
 	}()
@@ -1256,12 +1270,14 @@ func (p *constructPlan) Execute(ctx context.Context) (*table.Table, error) {
 		for _, r := range tbl.Rows() {
 			t, err := p.processConstructClause(cc, tbl, r)
 			if err != nil {
+				finish()
 				return nil, err
 			}
 			if len(cc.PredicateObjectPairs()) > 1 {
 				// We need to reify a blank node.
 				rts, bn, err := t.Reify()
 				if err != nil {
+					finish()
 					return nil, fmt.Errorf("triple.Reify failed to reify %v with error %v", t, err)
 				}
 				for _, trpl := range rts[1:] {
@@ -1270,10 +1286,12 @@ func (p *constructPlan) Execute(ctx context.Context) (*table.Table, error) {
 				for _, pop := range cc.PredicateObjectPairs()[1:] {
 					rprd, robj, err := p.processPredicateObjectPair(pop, tbl, r)
 					if err != nil {
+						finish()
 						return nil, err
 					}
 					rt, err := triple.New(bn, rprd, robj)
 					if err != nil {
+						finish()
 						return nil, err
 					}
 					tripChan <- rt
@@ -1283,9 +1301,11 @@ func (p *constructPlan) Execute(ctx context.Context) (*table.Table, error) {
 			}
 		}
 	}
-	close(tripChan)
 	// Wait until all triples are added to the store.
-	<-done
+	finish()
+	if len(uErrs) > 0 {
+		return nil, errors.New(strings.Join(uErrs, "; "))
+	}
 	return tbl, nil
 }
 
